@@ -15,8 +15,8 @@ use poulpy_core::{
     },
 };
 use poulpy_hal::{
-    api::{ScratchOwnedAlloc, ScratchOwnedBorrow},
-    layouts::{Module, NoiseInfos, ScalarZnx, ScratchOwned, ZnxView, ZnxViewMut},
+    api::{ScratchOwnedBorrow},
+    layouts::{Module, NoiseInfos, ScalarZnx, ZnxView, ZnxViewMut},
     source::Source,
 };
 use proptest::prelude::*;
@@ -141,7 +141,7 @@ fn run_glwe<B: FullBackend>(m: &Module<B>, c: &Case) -> Verdict {
         .max(m.glwe_encrypt_pk_tmp_bytes(&lay))
         .max(m.glwe_compressed_encrypt_sk_tmp_bytes(&lay))
         .max(m.glwe_decrypt_tmp_bytes(&lay));
-    let mut scratch = ScratchOwned::<B>::alloc(tmp + 4096);
+    let mut scratch = pzv_be::dirty_scratch::<B>(tmp + 4096);
     // error budget (exact rationals): num / 2^exp
     let (e_fresh, e_exp) = fresh_bound(&ni, b);
     let mut budget = Dyadic { num: e_fresh.clone(), exp: e_exp };
@@ -288,7 +288,7 @@ fn run_lwe<B: FullBackend>(m: &Module<B>, c: &Case) -> Verdict {
     let mut xe = Source::new(seed32(c.seed, 2));
     let mut xa = Source::new(seed32(c.seed, 3));
     let tmp = m.lwe_encrypt_sk_tmp_bytes(&lay).max(m.lwe_decrypt_tmp_bytes(&lay));
-    let mut scratch = ScratchOwned::<B>::alloc(tmp + 4096);
+    let mut scratch = pzv_be::dirty_scratch::<B>(tmp + 4096);
     m.lwe_encrypt_sk(&mut ct, &pt, &sk, &enc, &mut xe, &mut xa, scratch.borrow());
     let (e_fresh, e_exp) = fresh_bound(&ni, b);
     let mut budget = Dyadic { num: e_fresh, exp: e_exp };
